@@ -99,16 +99,17 @@ func tokensOf(raw json.RawMessage) []string {
 }
 
 func checkC12(c *Check) {
-	c.rule = "MC_Prec: every ordered pair of the 18 binary operators in both groupings; every triple in all five groupings (quick: a sixth); thorough: all triples and every chain of four operators in all fourteen groupings; 24 shapes mixing a binary operator with each prefix operator, index, call and ternary (ternary as condition / arm / operand / index target / argument); plain and compound assignments whose right-hand side is a binary, nested binary, ternary or prefix-index expression; each tree printed with minimal and with full parenthesisation; TLC checks that the model grammar (EFParser) reads both back as the same tree and that regrouping changes the minimal text; the real parser's tree (converted by a type switch over the exported node types) must equal the tree for both texts; distinct = distinct minimal text"
+	c.rule = "MC_Prec: every ordered pair of the 18 binary operators in both groupings; every triple in all five groupings (quick: a sixth); thorough: all triples and every chain of four operators in all fourteen groupings; 24 shapes mixing a binary operator with each prefix operator, index, call and ternary (ternary as condition / arm / operand / index target / argument); plain and compound assignments whose right-hand side is a binary, nested binary, ternary or prefix-index expression; each tree printed with minimal parenthesisation, with full parenthesisation and with minimal grouping but every identifier in parentheses of its own; 45 texts with a ternary nested without parentheses (in the else arm, the then arm, after an operator, inside a call; the outer then-arm starting with a name, a bracket, a prefix operator, a call, an index) which must be rejected; TLC checks that the model grammar (EFParser) reads both back as the same tree and that regrouping changes the minimal text; the real parser's tree (converted by a type switch over the exported node types) must equal the tree for both texts; distinct = distinct minimal text"
 	c.assumptions = []string{"ternaries nested inside ternaries (even bracketed) are not generated; '/' only follows identifiers, ')' and ']'"}
 	type precRow struct {
 		K    string          `json:"k"`
 		Tree json.RawMessage `json:"tree"`
 		Min  json.RawMessage `json:"min"`
 		Full json.RawMessage `json:"full"`
+		Leaf json.RawMessage `json:"leafy"`
 		Stmt string          `json:"stmt"`
 	}
-	cfg := stdCfg(c.Tier, "RoundTrip", "RegroupDiffers")
+	cfg := stdCfg(c.Tier, "RoundTrip", "RegroupDiffers", "NestedRejected")
 	runRows(c, "MC_Prec", cfg, func(row *Row) {
 		var r precRow
 		if err := json.Unmarshal(row.Raw, &r); err != nil {
@@ -119,9 +120,18 @@ func checkC12(c *Check) {
 		_ = json.Unmarshal(r.Tree, &want)
 		minText := strings.Join(tokensOf(r.Min), " ") + ";"
 		fullText := strings.Join(tokensOf(r.Full), " ") + ";"
+		leafText := strings.Join(tokensOf(r.Leaf), " ") + ";"
 		c.count(minText, true)
+		if r.Stmt == "reject" {
+			// a nested ternary: the parser must refuse the text
+			if got, err := parseOne(minText); err == nil {
+				gb, _ := json.Marshal(got)
+				c.disagree(&Disagreement{Kind: "nested-ternary-accepted", Script: minText, Expected: "rejected: nested ternaries are not part of the language", Got: string(gb), Row: row.Raw})
+			}
+			return
+		}
 		c.sample(map[string]interface{}{"minimal": minText, "full": fullText, "tree": want})
-		for _, v := range []struct{ style, text string }{{"minimal", minText}, {"full", fullText}} {
+		for _, v := range []struct{ style, text string }{{"minimal", minText}, {"full", fullText}, {"leaves-bracketed", leafText}} {
 			got, err := parseOne(v.text)
 			if err != nil {
 				c.disagree(&Disagreement{Kind: "parse-rejected", Script: v.text, Mode: v.style, Expected: string(r.Tree), Got: err.Error(), Row: row.Raw})
